@@ -6,7 +6,7 @@ datagram counter; every datagram that reaches a mock socket is judged by the har
 from cryptography.hazmat.primitives.ciphers.aead import AESGCM
 from hypothesis import strategies as st
 
-from mpgameserver.connection import RetryMode
+from mpgameserver.connection import RetryMode, HandshakeClientHelloMessage
 from vp import world as W
 from vp import scen
 
@@ -53,6 +53,9 @@ histories = st.fixed_dictionaries({
     "end": st.sampled_from(["none", "client-disconnect", "server-disconnect", "client-disconnect-keep-updating"]),
     "early": st.lists(st.tuples(st.sampled_from([0, 3, 14, 15, 40, 2000]), st.sampled_from(scen.RETRIES)).map(list), max_size=2),   # send() calls between connect() and the connect callback
     "hs_delay": st.sampled_from([0.001, 0.03, 0.2]),
+    "rehello": st.one_of(st.none(), st.none(), st.fixed_dictionaries({
+        "sends": st.integers(1, 3), "size": st.sampled_from([40, 900, 5000, 20000, 48000]), "retry": st.sampled_from(scen.RETRIES),
+        "after": st.integers(0, 6), "ahead": st.integers(1, 40), "bundle": st.booleans()})),
 })
 
 
@@ -177,6 +180,31 @@ def hist_body(ctx, c):
             w.step(dt)
         link.healed()
         w.run(1.3, 0.017)
+        n_sessions = 1
+        rh = c.get("rehello")
+        if rh and ch.connected() and w.server_conn(ch.laddr) is not None:
+            # a peer that owns the session (modified client software) sends, properly sealed, one more CLIENT_HELLO message
+            # while the server still has a backlog for it.  Whatever the server makes of it (the library agrees a new key
+            # and answers with a second signed hello), nothing but that hello may leave in clear
+            for k in range(rh["sends"]):
+                uid += 1
+                scen.do_send(w, ch, "s", rh["size"], rh["retry"], uid, callback=False)
+            for _ in range(rh["after"]):
+                w.step(0.017)
+            scn = w.server_conn(ch.laddr)
+            hm = HandshakeClientHelloMessage()
+            hm.client_pubkey = W.derive_key(W.Entropy(("c03-rehello", c["seed"])).int(256)).getPublicKey()
+            hm.client_version = 1
+            seq = (int(scn.bitfield_pkt.current_seqnum) - 1 + rh["ahead"]) % 65535 + 1
+            mseq = (int(scn.bitfield_msg.current_seqnum) - 1 + rh["ahead"]) % 65535 + 1
+            msgs = [(mseq, W.T_CLIENT_HELLO, hm.dumpb())]
+            if rh["bundle"]:
+                msgs.append(((mseq % 65535) + 1, W.T_APP, W.payload_for(900001, 20)))
+            d = W.build_datagram(True, int(w.clock.t), seq, 0, 0, W.T_CLIENT_HELLO if not rh["bundle"] else W.T_APP, msgs,
+                                 key=ch.conn.session_key_bytes)
+            w.net.push(w.clock.t + 0.001, w.server_addr, ch.laddr, d)
+            n_sessions = 2
+            w.run(1.5, 0.017)
         if c["end"] == "client-disconnect" and ch.connected():
             W.client_disconnect_and_wait(w, ch)
             w.run(0.2)
@@ -190,7 +218,9 @@ def hist_body(ctx, c):
             conn = w.server_conn(ch.laddr)
             w.on_server_thread(lambda: conn.disconnect())
             w.run(0.3)
-        stats = judge(ctx, w, {ch.laddr: 1})
+        stats = judge(ctx, w, {ch.laddr: n_sessions})
+        if n_sessions == 2:
+            ctx.label("hist-sealed-rehello-with-backlog")
         # classification
         wrapped = count_wraps(w)
         ka = retx = False
